@@ -432,7 +432,10 @@ def div_literals(expr, fp_arithmetic=False):
         return sym.Product((-1, div_literals(q, fp_arithmetic=fp_arithmetic)))
 
     if isinstance(expr.numerator, sym.FloatLiteral) or isinstance(expr.denominator, sym.FloatLiteral):
+        literal_types = (sym.IntLiteral, sym.FloatLiteral)
         if not fp_arithmetic:
+            return expr
+        if not (isinstance(expr.numerator, literal_types) and isinstance(expr.denominator, literal_types)):
             return expr
         return sym.Literal(float(expr.numerator.value) / float(expr.denominator.value))
 
@@ -445,12 +448,16 @@ def div_literals(expr, fp_arithmetic=False):
         denominator = sym.IntLiteral(expr.denominator.value // div)
 
     elif isinstance(expr.numerator, sym.Product):
-        value, _, remaining_components = separate_coefficients(expr.numerator, fp_arithmetic=fp_arithmetic)
-        div = gcd(value, expr.denominator.value)
-        numerator = mul_literals(
-            sym.Product((sym.IntLiteral(value // div), *remaining_components)), fp_arithmetic=fp_arithmetic
-        )
-        denominator = sym.IntLiteral(expr.denominator.value // div)
+        value, has_float, remaining_components = separate_coefficients(expr.numerator, fp_arithmetic=fp_arithmetic)
+        if has_float:
+            # No common integer divisor to cancel with a floating point coefficient
+            numerator, denominator = expr.numerator, expr.denominator
+        else:
+            div = gcd(value, expr.denominator.value)
+            numerator = mul_literals(
+                sym.Product((sym.IntLiteral(value // div), *remaining_components)), fp_arithmetic=fp_arithmetic
+            )
+            denominator = sym.IntLiteral(expr.denominator.value // div)
 
     else:
         numerator, denominator = expr.numerator, expr.denominator
